@@ -89,9 +89,9 @@ func Verif_C13_admission() {
 	case c13InboundJustEnabled:
 		first = newStagedConn("first")
 		first.remote = p0.remote
-		d := 1
+		d := 2
 		if verifTier() >= 1 {
-			d = 2
+			d = 3
 		}
 		verifDelayBound(d)             // schedules of accept path / manager / new FSM with up to d delays
 		p0.p.incomingConnection(first) // no quiescence: the next connection races the new FSM's first transition
